@@ -268,12 +268,36 @@ def histories(ctx):
                               {'history': True, 'json_ids': ids, 'resnames': resnames})
 
 
+def removal_order_cases(ctx, n, extra=()):
+    """links that do not overwrite each other, one of which removes an atom the others name: every order of definition
+    (sections of one file, or the same sections spread over files read in another order) gives the same molecule"""
+    import itertools
+    rng = ctx.rng
+    todo = list(extra) + [ffgen.gen_removal_ff(rng) for _ in range(n)]
+    for case in todo:
+        results = {}
+        for order in itertools.permutations(range(len(case['links']))):
+            out = ffgen.run_pipeline(ffgen.removal_ff_text(case, order), ffgen.removal_graph(case))
+            results[order] = out['error'] if 'error' in out else ffgen.removal_observed(out)
+        ctx.case(('removal_order', json.dumps(case, sort_keys=True)), nontrivial=True, sample={'links': [l['name'] for l in case['links']], 'nres': case['nres']})
+        ctx.feature('orders_of_links_around_an_atom_removal', len(results))
+        base = results[tuple(range(len(case['links'])))]
+        for order, r in results.items():
+            if r != base:
+                names = [case['links'][i]['name'] for i in order]
+                diff = r if isinstance(r, str) or isinstance(base, str) else sorted(set(base[1]) ^ set(r[1]))[:3]
+                ctx.violation('spec', f"C13 fails on the implementation: the links {[l['name'] for l in case['links']]} defined in the order {names} "
+                              f"give another molecule on MON:{case['nres']}; differing interactions {diff}", {'removal_order': case})
+                break
+
+
 def run(ctx):
     ctx.correspondences += ['metamorphic: relabelled / re-inserted / re-oriented residue graph through MapToMolecule + ApplyLinks',
                             'metamorphic: blocks and non-conflicting links listed in another order',
                             'from_itp fragments with permuted node keys',
                             'gen_params histories in one process vs fresh processes; .json graphs with arbitrary node ids']
     rng = ctx.rng
+    removal_order_cases(ctx, ctx.n(8, 80))
     n = 0
     corpus = [c for _, c in core.corpus_cases('C13')]
     for k in range(len(corpus) + ctx.n(120, 1200)):
@@ -342,6 +366,11 @@ def search(ctx):
 
 def replay(ctx, data):
     print(json.dumps(data, indent=1, default=str)[:3000])
+    if 'removal_order' in data:
+        before = len(ctx.violations)
+        removal_order_cases(ctx, 0, extra=[data['removal_order']])
+        print('replay:', ctx.violations[-1]['what'][:400] if len(ctx.violations) > before else 'same molecule in every order')
+        return 1 if len(ctx.violations) > before else 0
     if 'from_itp_keys' in data:
         nc = data['copies']
         try:
